@@ -11,6 +11,7 @@ import (
 	"github.com/issue9/mux/v9/types"
 
 	"verifharness/explore"
+	"verifharness/hv"
 )
 
 // ---- C20: Params accessors ----
@@ -53,11 +54,14 @@ func c20Alphabet() []c20Op {
 	return append(ops, c20Op{K: "reset"}, c20Op{K: "renew"}, c20Op{K: "renew0"}, c20Op{"del", "zz", ""}, c20Op{K: "fill31"})
 }
 
-type dummyNode struct{}
-
-func (dummyNode) Pattern() string     { return "/dummy" }
-func (dummyNode) Methods() []string   { return nil }
-func (dummyNode) AllowHeader() string { return "" }
+// someNode is a real types.Node taken from a throw-away router (the harness does not implement the interface
+// itself, so that it keeps compiling when the interface grows).
+var someNode = func() types.Node {
+	r := NewRouter(RouterCfg{})
+	r.Handle("/dummy", hv.Route("h"), nil, "GET")
+	o := hv.Serve(r, hv.Req{Method: "BOGUS", Path: "/dummy"})
+	return o.Served.Core().Node
+}()
 
 func errStr(e error) string {
 	if e == nil {
@@ -235,7 +239,7 @@ func c20Run(ops []c20Op) (ctx *types.Context, model map[string]string, class, ob
 				// make the released context as dirty as a served request leaves it
 				ctx.Path = "/left/over"
 				ctx.SetRouterName("left-over-router")
-				ctx.SetNode(dummyNode{})
+				ctx.SetNode(someNode)
 			}
 			ctx.Destroy()
 			ctx = types.NewContext()
